@@ -3,9 +3,11 @@
     soundness; and one step of the refinement, through the device: an entry with a long name appended to a directory
     is — after the directory has been rewritten (growing if need be) and read back — found under that name and listed
     under exactly that name, next to the entries that were there (C01_created_entry_is_found), and the lookup of every
-    name the new entry does not match is unchanged (C01_other_lookups_unchanged).  The refinement of whole programs to
-    the reference filesystem (C01_refine: path traversal over several directories, removal, aliases, the short-name
-    side) is NOT proved; it is checked on the implementation against fs.memoryfs and tied to the model by write logs. *)
+    name the new entry does not match is unchanged (C01_other_lookups_unchanged); the same for removal: the directory
+    rewritten without the first entry a predicate selects reads back as exactly that list, and every lookup the removed entry
+    did not answer to finds what it found before (C01_removed_entry_through_device).  The refinement of whole programs to
+    the reference filesystem (C01_refine: path traversal over several directories, that the removed name itself is gone
+    (needs uniqueness of names), the short-name side) is NOT proved; it is checked on the implementation against fs.memoryfs and tied to the model by write logs. *)
 From Coq Require Import ZArith List Bool Sorted Lia FMapPositive.
 From PyFatV Require Import Base.Bytes Base.PyEnv Gen.Pure Model.Codec Model.Dir Model.FS Proofs.FatTable Proofs.Names Proofs.Device Proofs.DirCodec Proofs.DirState Proofs.Chains Proofs.Namespace.
 Import ListNotations.
@@ -82,3 +84,14 @@ Proof.
   assert (Hvi : is_volid ex_e2 = false) by (vm_compute; reflexivity).
   exact (created_entry_is_found ex_st 2 [ex_ent] ex_e02 ex_u2 ex_sfn2 ex_n2 ex_created [2] dev_ok_empty G Hv Hh Hn2 Hc I ex_vol_ok Hes Hu Hl eq_refl He Hsp Hvi Hnone E).
 Qed.
+
+Theorem C01_removed_entry_through_device : forall s c es0 p s' ch,
+  dev_ok (s_dev s) -> geom_ok s -> vt (ft s) -> 0 <= s_hint s -> c <> -1 ->
+  chain s c = (ch, true) -> Forall (inside s) ch -> vol_ok s ->
+  Forall entry_ok es0 ->
+  write_dir s c (remove_first p (map canon es0)) = Ok s' ->
+  read_dir s' c = Ok (remove_first p (map canon es0)) /\
+  forall m, (forall x, In x (map canon es0) -> p x = true -> name_matches m x = false /\ name_matches_upper m x = false) ->
+    search_entry (remove_first p (map canon es0)) m = search_entry (map canon es0) m.
+Proof. exact removed_entry_through_device. Qed.
+Print Assumptions C01_removed_entry_through_device.
